@@ -902,14 +902,123 @@ func run(repo, out string) error {
 		}
 		b.WriteString(s + "\n")
 	}
+	rules, err := convertRules(repo)
+	if err != nil {
+		return err
+	}
+	b.WriteString(rules)
 	old, _ := os.ReadFile(out)
 	if string(old) != b.String() {
 		if err := os.WriteFile(out, []byte(b.String()), 0o644); err != nil {
 			return err
 		}
 	}
-	fmt.Printf("retrypolicy2coq: %s (%d functions)\n", out, len(targets))
+	fmt.Printf("retrypolicy2coq: %s (%d functions, 1 rule table)\n", out, len(targets))
 	return nil
+}
+
+// convertRules extracts the FACT TABLE of commonerrors.ConvertContextError (utils/commonerrors/errors.go): the ordered
+// list of tests and what each returns.  Recognised shape, nothing else:
+//
+//	if err == nil { return nil }
+//	if Any(err, context.Canceled|context.DeadlineExceeded) { return ErrCancelled|ErrTimeout }   (any number, any order)
+//	return err
+//
+// A test with another operator, operand or callee (e.g. "|| os.IsTimeout(err)") is a translator error.
+func convertRules(repo string) (string, error) {
+	path := filepath.Join(repo, "utils", "commonerrors", "errors.go")
+	fset := token.NewFileSet()
+	f, err := parser.ParseFile(fset, path, nil, parser.SkipObjectResolution)
+	if err != nil {
+		return "", fmt.Errorf("parse: %v", err)
+	}
+	ctxImported := false
+	for _, im := range f.Imports {
+		if im.Path.Value == `"context"` && im.Name == nil {
+			ctxImported = true
+		}
+	}
+	var fd *ast.FuncDecl
+	for _, d := range f.Decls {
+		if x, ok := d.(*ast.FuncDecl); ok && x.Recv == nil && x.Name.Name == "ConvertContextError" {
+			fd = x
+		}
+	}
+	bad := func(n ast.Node, f string, a ...any) (string, error) {
+		p := fset.Position(n.Pos())
+		return "", fmt.Errorf("errors.go:%d:%d: ConvertContextError is outside the recognised shape: %s", p.Line, p.Column, fmt.Sprintf(f, a...))
+	}
+	if fd == nil || fd.Body == nil || !ctxImported {
+		return "", fmt.Errorf("%s: ConvertContextError (or the import of context) not found", path)
+	}
+	ps := fd.Type.Params.List
+	if len(ps) != 1 || len(ps[0].Names) != 1 || types.ExprString(ps[0].Type) != "error" || fd.Type.Results == nil || len(fd.Type.Results.List) != 1 || types.ExprString(fd.Type.Results.List[0].Type) != "error" {
+		return bad(fd, "signature")
+	}
+	arg := ps[0].Names[0].Name
+	list := fd.Body.List
+	if len(list) < 1 {
+		return bad(fd, "empty body")
+	}
+	var rules []string
+	for _, st := range list[:len(list)-1] {
+		is, ok := st.(*ast.IfStmt)
+		if !ok || is.Init != nil || is.Else != nil || len(is.Body.List) != 1 {
+			return bad(st, "statement that is not 'if test { return x }'")
+		}
+		ret, ok := is.Body.List[0].(*ast.ReturnStmt)
+		if !ok || len(ret.Results) != 1 {
+			return bad(st, "branch that is not a single return")
+		}
+		rid := identOf(ret.Results[0])
+		if rid == nil {
+			return bad(ret, "returned expression %s", types.ExprString(ret.Results[0]))
+		}
+		var test string
+		switch c := is.Cond.(type) {
+		case *ast.BinaryExpr:
+			if c.Op != token.EQL || types.ExprString(c.X) != arg || types.ExprString(c.Y) != "nil" {
+				return bad(c, "test %s", types.ExprString(c))
+			}
+			test = "TNil"
+			if rid.Name != "nil" {
+				return bad(ret, "nil test returning %s", rid.Name)
+			}
+		case *ast.CallExpr:
+			if types.ExprString(c.Fun) != "Any" || len(c.Args) != 2 || types.ExprString(c.Args[0]) != arg || c.Ellipsis.IsValid() {
+				return bad(c, "test %s", types.ExprString(c))
+			}
+			switch types.ExprString(c.Args[1]) {
+			case "context.Canceled":
+				test = "TAny CtxCancel"
+			case "context.DeadlineExceeded":
+				test = "TAny CtxDeadline"
+			default:
+				return bad(c, "target %s", types.ExprString(c.Args[1]))
+			}
+		default:
+			return bad(is.Cond, "test %s", types.ExprString(is.Cond))
+		}
+		var res string
+		switch rid.Name {
+		case "nil":
+			res = "RNil"
+		case "ErrCancelled":
+			res = "RCancelled"
+		case "ErrTimeout":
+			res = "RTimeout"
+		default:
+			return bad(ret, "returned value %s", rid.Name)
+		}
+		rules = append(rules, "("+test+", "+res+")")
+	}
+	last, ok := list[len(list)-1].(*ast.ReturnStmt)
+	if !ok || len(last.Results) != 1 || types.ExprString(last.Results[0]) != arg {
+		return bad(list[len(list)-1], "the function does not end with 'return %s'", arg)
+	}
+	from, to := fset.Position(fd.Pos()), fset.Position(fd.End())
+	return fmt.Sprintf("(* utils/commonerrors/errors.go:%d-%d  func ConvertContextError: the ordered tests and what each returns; then 'return %s' *)\n"+
+		"Definition ConvertContextError_rules : list (conv_test * result) :=\n  [%s].\n", from.Line, to.Line, arg, strings.Join(rules, "; ")), nil
 }
 
 func main() {
